@@ -78,19 +78,29 @@ Theorem C17_one_line_each_csv_refuted :
 Proof. exact one_line_each_refuted_csv. Qed.
 Print Assumptions C17_one_line_each_csv_refuted.
 
-(* mqtt-out: for every interleaving of arriving updates, publish-loop steps and
-   ingress registrations, once the queue is drained the client has been handed
-   exactly the addressed messages, once, in emission order *)
-Theorem C17_mqtt_once_in_order : forall c h,
+(* mqtt-out: for every interleaving of arriving updates, publish-loop steps,
+   ingress registrations and client hand-overs in which the publish loop only
+   runs while it has a client, once the queue is drained the client has been
+   handed exactly the addressed messages, once, in emission order *)
+Theorem C17_mqtt_once_in_order_partial : forall c h,
+  publishes_connected false h = true ->
   ms_published (mqtt_drain (mqtt_run c h)) = mqtt_spec c [] h.
 Proof. exact mqtt_once_in_order. Qed.
-Print Assumptions C17_mqtt_once_in_order.
+Print Assumptions C17_mqtt_once_in_order_partial.
 
 (* ... and at every moment before that, a prefix of them *)
-Theorem C17_mqtt_published_is_prefix : forall c h,
+Theorem C17_mqtt_published_is_prefix_partial : forall c h,
+  publishes_connected false h = true ->
   exists rest, mqtt_spec c [] h = ms_published (mqtt_run c h) ++ rest.
 Proof. exact mqtt_published_prefix. Qed.
-Print Assumptions C17_mqtt_published_is_prefix.
+Print Assumptions C17_mqtt_published_is_prefix_partial.
+
+(* without the hypothesis it is false: what the loop takes off the queue while
+   there is no client is discarded (known finding C17-mqtt-no-client) *)
+Theorem C17_mqtt_once_in_order_refuted :
+  exists c h, ms_published (mqtt_drain (mqtt_run c h)) <> mqtt_spec c [] h.
+Proof. exact mqtt_publish_without_client_refuted. Qed.
+Print Assumptions C17_mqtt_once_in_order_refuted.
 
 (* selection: exactly the messages whose name is the component's name *)
 Theorem C17_mqtt_selects_exactly : forall c r ms,
@@ -136,7 +146,7 @@ Example C17_example :
   length (file_lines FCsv us) = 5%nat /\
   nth 3 (file_lines FJsonMin us) LGarbage = LText [104; 105] /\
   let c := MkCfg [109] [114; 47; 123; 105; 100; 125] 2 in
-  map p_topic (mqtt_observe c [MRegister 1 77;
+  map p_topic (mqtt_observe c [MClient true; MRegister 1 77;
        MUpdate (UOutput [MkOsm [120] [97] (RCustom 1 1) None; MkOsm [109] [98] (RCustom 2 2) (Some 1)]);
        MPublish; MUpdate (USingle (MkRoute 1 true))]) = [[114; 47; 98]].
 Proof. vm_compute. repeat split; reflexivity. Qed.
